@@ -4,61 +4,6 @@ from .. import core, curvegen as g
 from ..runner import Case, Property
 
 
-def simulate_f7(line, k):
-    """is op k a computation on an EMPTY control-point list while the shared buffers hold a previous (non-empty) path?
-    Tracks, independently of the implementation's output: the buffer's path (kept by borrowed computations, taken by owned
-    ones, left alone by an empty list), the SliderPath's cache and current control points."""
-    toks = line.split()
-    rest = toks[2:]
-    h = rest.index("#")
-    pool, cur = [], []
-    for t in rest[:h]:
-        if t == "|":
-            pool.append(cur)
-            cur = []
-        else:
-            cur.append(t)
-    pool.append(cur)
-    ops = rest[h + 1:]
-    stale = False          # buffers hold a non-empty path
-    cached = False
-    pts = pool[0] if pool else []
-    for i, op in enumerate(ops):
-        kind, arg = op[0], op[1:]
-        empty = None
-        if kind in "ob":
-            idx = int(arg.split(":")[0])
-            p = pool[idx] if idx < len(pool) else []
-            empty = not p
-            if i == k:
-                return empty and stale
-            if not empty:
-                stale = kind == "b"
-            elif kind == "o":
-                stale = False      # the stale path is moved out into the returned curve
-        elif kind == "c":
-            if i == k:
-                return False       # fresh buffers
-            cached = True
-        elif kind == "w":
-            if i == k:
-                return (not cached) and (not pts) and stale
-            if not cached:
-                stale = False
-                cached = True
-        elif kind == "r":
-            if i == k:
-                return (not cached) and (not pts) and stale
-            if not cached and pts:
-                stale = True
-        elif kind == "m":
-            pts = pool[int(arg)] if int(arg) < len(pool) else []
-            cached = False
-        elif kind in "lx":
-            cached = False
-    return False
-
-
 class C18(Property):
     id = "C18"
     lean_module = "RosuModel.Props.C18"
@@ -66,25 +11,23 @@ class C18(Property):
     design_ref = "5.18"
     level_text = (
         "Lean 4 theorems over the model with CurveBuffers threaded explicitly INCLUDING stale contents and SliderPath as a state machine, "
-        "for every arithmetic instance: borrowed_eq_owned; owned_takes_borrowed_leaves; compute_ignores_buffers_partial (UNCONDITIONAL: for "
-        "NON-EMPTY control points whose typed points are all linear or Catmull, and well-formed buffers, the observable curve / panic / fuel "
-        "outcome is independent of the buffer contents); compute_ignores_buffers_modulo_bezier (the same for ALL segment kinds - Bezier, "
-        "B-spline, perfect curves incl. their Bezier fallback - GIVEN BezierPure = the same statement for approximate_bezier alone, an "
-        "explicit hypothesis that is not proved); the full statement "
-        "compute_ignores_buffers_statement is proved FALSE of the code (compute_ignores_buffers_statement_false, witness F7: "
-        "BorrowedCurve::new(pts) then Curve::new(&[]) on the same buffers returns the stale path); cache_invariant (every SliderPath "
-        "operation preserves 'cache empty or holds a curve Curve::new produces for the current fields', and every accessor returns such a "
-        "curve) and access_reflects_current (induction over arbitrary operation histories). Model tied to the code bit-for-bit on "
-        "operation sequences over shared buffers, F7 reproduced identically by model and code.")
+        "for every arithmetic instance, at the FULL strength of the property: compute_ignores_buffers (for every mode, control-point list - "
+        "empty or not, every segment kind incl. Bezier / B-spline / perfect curves with arc or Bezier fallback -, requested length and fuel, "
+        "the curve or panic / fuel outcome of Curve::new is independent of what well-formed buffers held before; rests on bezierPure in "
+        "Lemmas/BezierPure.lean: bezier_subdivide / bezier_approximate / approximate_bspline, run in lock step on two arbitrary scratch "
+        "contents, agree - every cell of left/right/midpoints/left_child and of the recycled free_bufs right-child that is read was written "
+        "earlier in the same call - and no index read can panic); compute_eq_fresh; new_preserves_wf (well-formedness is an invariant of every "
+        "history from CurveBuffers::default()); compute_empty (the repaired F7 branch); borrowed_eq_owned; owned_takes_borrowed_leaves; "
+        "cache_invariant (every SliderPath operation preserves 'cache empty or holds a curve Curve::new produces for the current fields', "
+        "every accessor returns such a curve) and access_reflects_current (induction over arbitrary operation histories). Model tied to the "
+        "code bit-for-bit on operation sequences over shared buffers; an oracle compares every result with a computation on fresh buffers.")
     technique = "Lean 4 proof (lock-step relational induction over the segment loop; induction over operation histories) + differential correspondence on op sequences"
-    required_theorems = ["borrowed_eq_owned", "owned_takes_borrowed_leaves", "compute_ignores_buffers_partial",
-                         "compute_ignores_buffers_core", "compute_ignores_buffers_modulo_bezier",
-                         "compute_ignores_buffers_statement_false", "f7_witness", "staleBufs_from_borrowed", "cache_invariant",
-                         "access_reflects_current", "curveWithBufs_spec"]
+    required_theorems = ["borrowed_eq_owned", "owned_takes_borrowed_leaves", "compute_ignores_buffers", "compute_eq_fresh",
+                         "compute_ignores_buffers_statement_holds", "compute_empty", "new_preserves_wf",
+                         "compute_ignores_buffers_core", "compute_ignores_buffers_partial", "staleBufs_from_borrowed",
+                         "cache_invariant", "access_reflects_current", "curveWithBufs_spec"]
     partial_theorems = {
-        "compute_ignores_buffers_partial": "restricted to non-empty control points (the full statement is false: F7) whose typed points are linear or Catmull; perfect-curve and Bezier/B-spline segments are covered only by compute_ignores_buffers_modulo_bezier",
-        "compute_ignores_buffers_modulo_bezier": "restricted to non-empty control points (the full statement is false: F7) and conditional on BezierPure (approximate_bezier does not depend on the contents of its four scratch vectors) - a named hypothesis, not proved in Lean; it is exercised by the correspondence and by the oracle (sequences of Bezier computations of different degrees on one buffer set vs fresh buffers)",
-        "cache_invariant": "says the cached curve is one Curve::new produces for the current fields on SOME buffers; that the buffers are irrelevant is the theorem above (non-empty points only)",
+        "cache_invariant": "says the cached curve is one Curve::new produces for the current fields on SOME buffers; that the buffers are irrelevant is compute_ignores_buffers (well-formed buffers)",
     }
     trusted_base = [
         "Lean 4.33.0 kernel",
@@ -94,11 +37,10 @@ class C18(Property):
     ]
     assumptions = [
         "theorems are about the Lean model; model = code is checked on the generated operation sequences of this run (bit-for-bit)",
-        "BezierPure is a hypothesis of compute_ignores_buffers_modulo_bezier, not a theorem",
         "well-formed buffers (the four Bezier scratch vectors have equal lengths) - true of CurveBuffers::default() and of every buffer the public API can produce",
     ]
     nontrivial_rule = ("operation sequences {owned, borrowed, path.curve(), curve_with_bufs, borrowed_curve, set points, set length, clear} over pools of "
-                       "control-point lists incl. empty, single-point, multi-segment, Bezier of different degrees, sharing one buffer set; exhaustive up to length 3 "
+                       "control-point lists incl. empty, single-point, multi-segment, Bezier of different degrees, sharing one buffer set (the former F7 shapes - empty list after a borrowed computation - are part of the exhaustive alphabet and must pass); exhaustive up to length 3 "
                        "over a 15-op alphabet, random up to length 30; non-trivial = at least two computations")
 
     def gen(self, rng, tier):
@@ -153,15 +95,6 @@ class C18(Property):
 
     def is_nontrivial(self, case, impl_out):
         return impl_out.count("p=") >= 2
-
-    def known(self, case, out, findings):
-        if out.startswith("FAIL op=") and "empty-points=true" in out:
-            k = int(out.split()[1][3:])
-            if simulate_f7(case.line, k):
-                for f in findings:
-                    if f.get("predicate") == "empty_points_on_stale_buffers":
-                        return f["id"]
-        return None
 
 
 PROP = C18()
